@@ -33,6 +33,7 @@ def ob(name, freq, defs, npop=6, **kw):
         o['unwindset'].update({'rrul_fill_Hly.8': 2, 'rrul_fill_Hly.9': 3, 'rrul_fill_Hly.10': 3})
     if freq == 7:
         o['unwindset'].update({'rrul_fill_Sly.12': 3})
+    o['unwindset'].update(kw.pop('uw', {}))
     o.update(kw)
     return o
 Q = ('quick', 'thorough'); T = ('thorough',)
@@ -54,6 +55,8 @@ OBLIGATIONS = [
     small('weekly_restart_c2_p2', 3, ['RESTART', 'EXPECT_REFILLS'], npop=2, timeout=3400, tiers=T, mem_gb=20),
     small('monthly_bymonthday1_restart_c2_p2', 2, ['RESTART', 'NDOM=1', 'EXPECT_REFILLS'], npop=2, timeout=3400, tiers=T, mem_gb=24),
     small('monthly_shift3_restart_c2_p2', 2, ['RESTART', 'SHIFTD=3', 'EXPECT_REFILLS'], npop=2, timeout=3400, tiers=T, mem_gb=24),
+    small('yearly_byhour2_shiftm5_c2_p3', 1, ['RESTART', 'NH=2', 'SHIFTD=-5', 'EXPECT_REFILLS'], npop=3, timeout=3400, tiers=T, mem_gb=30,
+          uw={'shift.*': 9, 'fill_yly_ymd.*': 4, 'fill_yly_ymd_all_d.*': 4, 'fill_yly_ymd_all_m.*': 14, 'fill_yly_md_all.*': 33, 'fill_yly_yd_all.*': 368, 'fill_yly_yd.*': 4, 'fill_yly_ywd.*': 4, 'fill_yly_ycw.*': 4, 'fill_yly_ymcw.*': 4, 'fill_yly_eastr.*': 2}),
     small('daily_until_c2_p2', 4, ['WITH_UNTIL'], npop=2, timeout=3400, tiers=T),
     ob('hourly_restart', 5, ['RESTART', 'EXPECT_REFILLS'], npop=5, tiers=T, timeout=3400),
     ob('daily_restart', 4, ['RESTART', 'EXPECT_REFILLS'], npop=5, tiers=T, timeout=3400),
